@@ -304,7 +304,9 @@ static inline void vp_throw_now(int32_t code);   /* defined by the generated fil
 /* ------------------------------------------------------------------ linearizability of a single register (C15)
  * history of <= VP_HN completed operations, stamps from a global counter; values from a small domain 0..VP_HV-1.
  * R[mask] = set of register values possible after linearising exactly the operations in mask (subset DP). */
+#ifndef VP_HN
 #define VP_HN 6
+#endif
 #define VP_HV 4
 enum { VP_OP_LOAD, VP_OP_STORE, VP_OP_XCHG, VP_OP_CAS };
 int vp_h_n; unsigned vp_h_clock;
